@@ -11,7 +11,8 @@ def plan(tier):
             "compl_all_256_bytes", "std_alphabets", "alpha_contains_byte_0", "alpha_contains_byte_255",
             "alpha_empty", "alpha_all_256", "alpha_word_with_planted_symbol", "gc_empty_and_single",
             "gc3_len_not_multiple_of_3", "orf_codons_with_nul_and_suffix_heads",
-            "more_than_2p24_gc_symbols", "more_than_2p24_gc3_symbols"],
+            "more_than_2p24_gc_symbols", "more_than_2p24_gc3_symbols", "more_than_2p32_symbols_in_one_gc_call",
+            "orf_start_codons_not_ascending", "orf_stop_codons_not_ascending", "orf_repeated_codon"],
         "rule": "orf: one run = one Finder (start/stop codon sets, min_len) applied to several sequences; all "
                 "sequences over {A,T,G} up to length 9 (10 thorough) with min_len rotating over 0,1,3,4,5,6, codon "
                 "soups up to 300 symbols for four start/stop sets (standard, three starts/one stop, arbitrary bytes, "
@@ -20,7 +21,9 @@ def plan(tier):
                 "bytes and revcomp for DNA and RNA, alphabets from fixed and random byte multisets (incl. empty, "
                 "0, 255, all 256) with len/is_empty/max_symbol/symbols/is_word/ranks/transform/set operations, the "
                 "eight predefined alphabets, gc/gc3 content on sequences up to 300 and on streamed repetitions of a short "
-                "unit (logged as unit + count, up to 5.1*10^7 symbols, more than 2^24 G/C symbols per call); orf also: "
+                "unit (logged as unit + count, up to 5.1*10^7 symbols, more than 2^24 G/C symbols per call) and on two streamed segments (unit, multiple of a 3*2^20 chunk; "
+                "one call with 4.3*10^9 > 2^32 symbols); codon sets are also given in descending / rotated order and "
+                "with repeated codons; orf also: "
                 "codon sets with 0x00 / blank / 0xFF bytes in every position, all sequences shorter than a codon, "
                 "heads equal to every proper suffix of every codon followed by an in-frame stop",
         "bounds": {"mc": "finder machine: all sequences over {A,T,G} up to length 9, start ATG, stops TAG/TGA/TAA, "
